@@ -194,7 +194,7 @@ def key_less(vc, x, y):
 @register
 class DeltaEval(Contract):
     key = "adcgen.sympy_objects:KroneckerDelta.eval"
-    props = ["C06"]
+    props = ["C06", "C09"]      # C09: a delta between disjoint index ranges is zero in either argument order
 
     def setup(self, vc):
         i, j = new_named_index(vc, "i"), new_named_index(vc, "j")
@@ -252,7 +252,7 @@ class DeltaEval(Contract):
 @register
 class DeltaEvalPower(Contract):
     key = "adcgen.sympy_objects:KroneckerDelta._eval_power"
-    props = ["C06"]
+    props = ["C06", "C09"]
 
     def setup(self, vc):
         e = vc.fresh_int("exp")
@@ -494,3 +494,48 @@ class AntiSymNew(_TensorNew):
 class SymNew(_TensorNew):
     key = "adcgen.sympy_objects:SymmetricTensor.__new__"
     antisym = False
+
+
+# --- add_bra_ket_sym: same tensor (class, name, indices), only the bra-ket symmetry is set ---------
+_TENSOR_CLASSES = ["adcgen.sympy_objects:AntiSymmetricTensor", "adcgen.sympy_objects:SymmetricTensor",
+                   "adcgen.sympy_objects:Amplitude"]
+
+
+@register
+class AddBraKetSym(Contract):
+    key = "adcgen.sympy_objects:AntiSymmetricTensor.add_bra_ket_sym"
+    props = ["C06"]
+
+    def setup(self, vc):
+        from pyvc.values import ClassRef
+        cls = _TENSOR_CLASSES[vc.choose(3, "class")]
+        have, want = vc.fresh_int("bra_ket_sym_of_the_tensor"), vc.fresh_int("requested_bra_ket_sym")
+        vc.assume(z3.And(have >= -1, have <= 1, want >= -1, want <= 1))
+        me = Struct("TensorSelf", klass=cls, symbol=Struct("Opaque", what="symbol"),
+                    upper=Struct("Opaque", what="upper"), lower=Struct("Opaque", what="lower"), bk=Sym(have))
+        C.STRUCT_ATTR[("TensorSelf", "__class__")] = lambda ip, o: ClassRef(o.f["klass"])
+        C.STRUCT_ATTR[("TensorSelf", "bra_ket_sym")] = lambda ip, o: o.f["bk"]
+        for f in ("symbol", "upper", "lower"):
+            C.STRUCT_ATTR[("TensorSelf", f)] = (lambda f: lambda ip, o: o.f[f])(f)
+        for k in _TENSOR_CLASSES:
+            C.CLASS_MODELS[k] = (lambda k: lambda ip, a, kw: Struct("BuiltTensor", klass=k, args=tuple(a), kw=dict(kw)))(k)
+        return {"self": me, "bra_ket_sym": Sym(want)}
+
+    def raises(self, vc, a):
+        have, want = a["self"].f["bk"].t, a["bra_ket_sym"].t
+        return [("Inputerror", z3.And(have != want, have != 0))]
+
+    def post(self, vc, a, result):
+        me = a["self"]
+        have, want = me.f["bk"].t, a["bra_ket_sym"].t
+        if result is me:
+            return [("the-tensor-itself-is-returned-only-if-it-has-the-requested-symmetry", have == want)]
+        ok = isinstance(result, Struct) and result.cls == "BuiltTensor"
+        args = result.f["args"] if ok else ()
+        return [("a-tensor-of-the-same-class-is-built", ok and result.f["klass"] == me.f["klass"]),
+                ("with-the-same-name-and-indices",
+                 ok and len(args) == 4 and args[0] is me.f["symbol"] and args[1] is me.f["upper"]
+                 and args[2] is me.f["lower"] and not result.f["kw"]),
+                ("and-the-requested-bra-ket-symmetry",
+                 ok and len(args) == 4 and isinstance(args[3], Sym) and args[3].t.eq(want)),
+                ("only-a-tensor-without-bra-ket-symmetry-is-rebuilt", z3.And(have == 0, want != 0))]
